@@ -261,6 +261,9 @@ impl Process {
     }
 
     pub(crate) fn do_tick(&self) {
+        // the timeout hook checks that the task is still open and then starts the rule's steps: a client
+        // action that closes the task in between would leave them running beneath a finished task
+        let _lock = self.lock_actions();
         self.find_tasks(|t| t.hooks().contains_key(&TaskLifeCycle::Timeout))
             .iter()
             .for_each(|t| {
